@@ -17,6 +17,8 @@ use serde_json::{json, Map, Value};
 /// DID 4 has DID 1 as a proper string prefix (issuer equality must be equality of DIDs, not of prefixes)
 pub const DIDS: [&str; 5] = ["", "did:example:issuer", "did:example:other", "did:example:third", "did:example:issuer:sub"];
 pub const RESTS: [&str; 3] = ["", "/p1", "?q=1"];
+pub const BOUND_UNSET: i64 = 4102444800;
+pub const Y2200: i64 = 7258118400;
 #[derive(Clone, Copy, Debug, PartialEq, Eq)]
 pub struct U { pub d: i64, pub r: i64, pub f: i64 }
 pub fn ustr(u: U) -> String { format!("{}{}{}", DIDS[u.d as usize], RESTS[u.r as usize], if u.f < 0 { String::new() } else { format!("#f{}", u.f) }) }
@@ -183,7 +185,9 @@ pub fn exec(case: &[i64]) -> Outcome {
   let docs: Vec<CoreDocument> = match c.issuers.iter().map(|i| i.build()).collect::<Option<Vec<_>>>() { Some(d) => d, None => return Outcome::new(vec![-7]).class("unbuildable").trivial().fail("an issuer document of the case does not build") };
   let kid = match c.kid.0 { 0 => None, 1 => Some("not a did url".to_string()), _ => Some(ustr(c.kid.1)) };
   let token = Jwt::new(jws(kid, c.nonce, &if c.claims_ok { c.vc.claims(true) } else { c.vc.bad_claims(c.bad) }, c.sigkey));
-  let mut opts = JwtCredentialValidationOptions::default().earliest_expiry_date(Timestamp::from_unix(c.earliest).unwrap()).latest_issuance_date(Timestamp::from_unix(c.latest).unwrap())
+  // a bound equal to BOUND_UNSET (year 2100, a stand-in for the clock) is LEFT UNSET: the validator then uses the current time. Token dates of those rows are in 1970-2001 or 2200, so the verdict is the same for every clock reading before 2100
+  let mut opts = JwtCredentialValidationOptions::default(); if c.earliest != BOUND_UNSET { opts = opts.earliest_expiry_date(Timestamp::from_unix(c.earliest).unwrap()); } if c.latest != BOUND_UNSET { opts = opts.latest_issuance_date(Timestamp::from_unix(c.latest).unwrap()); }
+  let mut opts = opts
     .status_check(match c.status_mode { 0 => StatusCheck::Strict, 1 => StatusCheck::SkipUnsupported, _ => StatusCheck::SkipAll }).verification_options(jws_options(&c));
   if let Some((h, m)) = c.sh { opts = opts.subject_holder_relationship(Url::parse(format!("did:example:holder{h}")).unwrap(), match m { 0 => SubjectHolderRelationship::AlwaysSubject, 1 => SubjectHolderRelationship::SubjectOnNonTransferable, _ => SubjectHolderRelationship::Any }); }
   let validator = JwtCredentialValidator::with_signature_verifier(KeyEcho);
@@ -264,6 +268,9 @@ pub fn mutations() -> Vec<(&'static str, Vec<fn(&mut Case)>)> {
     ("claims", vec![|c| c.claims_ok = false, |c| { c.claims_ok = false; c.bad = 1; }, |c| { c.claims_ok = false; c.bad = 1; c.vc.expires = Some(100); }, |c| { c.claims_ok = false; c.bad = 2; }, |c| { c.claims_ok = false; c.bad = 3; }, |c| { c.claims_ok = false; c.bad = 4; }, |c| { c.claims_ok = false; c.bad = 5; }, |c| { c.claims_ok = false; c.bad = 6; }, |c| { c.claims_ok = false; c.bad = 7; }]),
     ("issuer", vec![|c| c.vc.issuer = Some(2), |c| c.vc.issuer = None, |c| c.vc.issuer = Some(3), |c| c.vc.issuer = Some(4)]),
     ("issuance", vec![|c| c.vc.issued = 1999, |c| c.vc.issued = 2000, |c| c.vc.issued = 2001]),
+    ("unset-bounds", vec![|c| c.latest = BOUND_UNSET, |c| { c.latest = BOUND_UNSET; c.vc.issued = Y2200; }, |c| { c.latest = BOUND_UNSET; c.vc.issued = Y2200; c.earliest = Y2200 + 100; c.vc.expires = Some(Y2200 + 200); },
+      |c| c.earliest = BOUND_UNSET, |c| { c.earliest = BOUND_UNSET; c.vc.expires = Some(Y2200); }, |c| { c.earliest = BOUND_UNSET; c.vc.expires = None; }, |c| { c.earliest = BOUND_UNSET; c.latest = BOUND_UNSET; }, |c| { c.earliest = BOUND_UNSET; c.latest = BOUND_UNSET; c.vc.expires = Some(Y2200); },
+      |c| { c.earliest = BOUND_UNSET; c.latest = Y2200 + 5; c.vc.issued = Y2200; c.vc.expires = Some(Y2200 + 1); }]),
     ("expiry", vec![|c| c.vc.expires = None, |c| c.vc.expires = Some(3999), |c| c.vc.expires = Some(4000), |c| c.vc.expires = Some(4001)]),
     ("structure", vec![|c| c.vc.ctx_ok = false, |c| c.vc.type_ok = false, |c| { c.vc.sub_id = None; c.vc.sub_empty = true; }, |c| c.vc.sub_empty = true, |c| c.vc.sub_id = None]),
     ("subject-holder", vec![|c| c.sh = Some((1, 0)), |c| c.sh = Some((2, 0)), |c| c.sh = Some((2, 1)), |c| { c.sh = Some((2, 1)); c.vc.nontransf = Some(true); }, |c| { c.sh = Some((2, 1)); c.vc.nontransf = Some(false); }, |c| { c.sh = Some((1, 1)); c.vc.nontransf = Some(true); }, |c| c.sh = Some((2, 2)), |c| { c.sh = Some((1, 0)); c.vc.sub_id = None; }]),
